@@ -14,6 +14,11 @@ WMPT_COMPONENTS = {
     "stub": ["storage.StorageAdapter -> /verif/harness/simkv (in-memory store with atomic batches, write log, sync points, crash prefixes, error and corruption injection) in the majority of runs"],
 }
 
+CACHE_COMPONENTS = {
+    "real": ["core/statecache (StateCache, BlockCache, TransactionCache, QueryBlockCache) and github.com/hashicorp/golang-lru - unmodified sources of /repo's working tree", "core/util node types as cache values (C07)"],
+    "stub": [],
+}
+
 def mpt(level="exploration", **kw):
     d = dict(level=level, components=MPT_COMPONENTS)
     d.update(kw)
@@ -112,5 +117,20 @@ PROPS = {
         state_measure="digest of (canonical weighted-trie shape of the content, collapse level of the commit)",
         assumptions=["an in-memory source with uncommitted changes is hashed (GetRoot().CalcHash()) before GetPath, which is the protocol of the package's own tests; exporting from a never-hashed trie is outside the property",
                      "no fault kind applies (fault-free configuration); malformed exports are C15's subject"],
+    ),
+    "C06": dict(
+        level="exploration", components=CACHE_COMPONENTS,
+        quick=dict(runs=480000, budget_s=90), thorough=dict(runs=24000000, budget_s=1200),
+        rule="one real StateCache; a generated block tree (forks, gaps = unknown previous hash, chains, blocks renamed with SetBlockHash before commit, blocks committed twice, children committed before parents); per block a real BlockCache, several TransactionCaches, QueryBlockCaches at arbitrary (old, sibling, tip, unknown) blocks and transaction caches over query caches; operations set/remove/get on transaction caches, Set/Get on block caches, commits of transactions and blocks in any order, StateCache.Get / StateCache.Remove. Oracle (soundness; a miss is always allowed): every HIT must carry exactly the value most recently written on that context's own chain (own uncommitted map -> block's pre-commit map -> committed blocks along previous-hash links; the walk stops at the first uncommitted or unknown block) and that entry must be a value, not a tombstone. 1 in 40 runs are long chains (230-350 blocks, some 2050-2250) that exceed the real capacities (200 versions per key, 2000 ancestor links) with reads at an old block that refresh its recency. Non-trivial: >= 2 writes and >= 1 hit",
+        state_measure="digest of (block-tree shape with commit flags, per-block committed key/tombstone sets) at the end of the run",
+        assumptions=["a block cache and its transaction caches are not used after the block committed (the block cache is discarded then)",
+                     "a capacity replica of the LRU maps (documented semantics) is used only to tell the listed eviction finding from any other wrong value"],
+    ),
+    "C07": dict(
+        level="exploration", components=CACHE_COMPONENTS,
+        quick=dict(runs=800000, budget_s=90), thorough=dict(runs=40000000, budget_s=1200),
+        rule="block trees and operations as in C06 (short runs: no capacity is reached, decided from the model). Visibility: a write/removal in a transaction cache is invisible to its block cache and to sibling transactions until the transaction commits; a block's writes are invisible to StateCache.Get, query caches and other blocks until the block commits. Completeness: a lookup in a context whose chain is fully committed up to a write MUST hit with that value (own uncommitted writes always). Copy oracle: values are mutable (byte values, and real util.LeafNode / FullNode / ExtensionNode, which implement statecache.Value); the harness scribbles on every value right after handing it in and on every value it receives (bytes, paths, child keys, SetValue, origin); all later reads through every layer must still equal the model. Non-trivial: >= 2 writes and >= 1 hit",
+        state_measure="digest of (block-tree shape with commit flags, per-block committed key/tombstone sets) at the end of the run",
+        assumptions=["'unless evicted for capacity' is decided from the model: completeness is demanded only while fewer than 200 versions of the key and fewer than 2000 blocks were added"],
     ),
 }
